@@ -42,6 +42,9 @@ func (ex *Exec) get(st *State, key string, srt Sort) string {
 	name := ex.entryName(key)
 	if _, ok := ex.sc.declared[name]; !ok {
 		ex.sc.Declare(name, srt)
+		if key != allocKey {
+			ex.refAxiom(key, name, srt, ex.sc.Declare(ex.entryName(allocKey), SInt))
+		}
 		if strings.HasPrefix(key, "M.") && strings.HasSuffix(key, ".card") {
 			// the nil map is empty; cardinalities are non-negative
 			ex.sc.Assume(fmt.Sprintf("(= (select %s 0) 0)", name))
@@ -76,7 +79,49 @@ func (ex *Exec) havocKey(st *State, key string) string {
 	n := ex.sc.Fresh(key+"$h", srt)
 	st.heap[key] = n
 	ex.written[key] = true
+	if key != allocKey {
+		ex.refAxiom(key, n, srt, ex.get(st, allocKey, SInt))
+	}
 	return n
+}
+
+// refAxiom: every reference stored in a heap array was allocated before:
+// it lies in [0, alloc]. (Quantified, pattern-guarded; one per array version
+// that is not defined from another one.)
+func (ex *Exec) refAxiom(key, name string, srt Sort, alloc string) {
+	k := ex.kinds[key]
+	lo, hi := "0", alloc
+	switch k {
+	case "ref", "slice.arr", "iface.ref":
+	case "int":
+		var ok bool
+		lo, hi, ok = intRange(ex.leafTyp[key])
+		if !ok {
+			return
+		}
+	default:
+		return
+	}
+	alloc = hi
+	if lo != "0" {
+		switch srt {
+		case SArr(SInt, SInt):
+			ex.sc.Assume(fmt.Sprintf("(forall ((o Int)) (! (and (<= %s (select %s o)) (<= (select %s o) %s)) :pattern ((select %s o))))", lo, name, name, hi, name))
+		case SArr(SInt, SArr(SInt, SInt)):
+			ex.sc.Assume(fmt.Sprintf("(forall ((a Int) (p Int)) (! (and (<= %s (select (select %s a) p)) (<= (select (select %s a) p) %s)) :pattern ((select (select %s a) p))))", lo, name, name, hi, name))
+		case SInt:
+			ex.sc.Assume(fmt.Sprintf("(and (<= %s %s) (<= %s %s))", lo, name, name, hi))
+		}
+		return
+	}
+	switch srt {
+	case SArr(SInt, SInt):
+		ex.sc.Assume(fmt.Sprintf("(forall ((o Int)) (! (and (<= 0 (select %s o)) (<= (select %s o) %s)) :pattern ((select %s o))))", name, name, alloc, name))
+	case SArr(SInt, SArr(SInt, SInt)):
+		ex.sc.Assume(fmt.Sprintf("(forall ((a Int) (p Int)) (! (and (<= 0 (select (select %s a) p)) (<= (select (select %s a) p) %s)) :pattern ((select (select %s a) p))))", name, name, alloc, name))
+	case SInt:
+		ex.sc.Assume(fmt.Sprintf("(and (<= 0 %s) (<= %s %s))", name, name, alloc))
+	}
 }
 
 // mergeStates builds the ite-merge of several states under edge conditions.
@@ -162,6 +207,8 @@ func ptrLocs(p *Ptr, t types.Type) []Loc {
 }
 
 func (ex *Exec) readLoc(st *State, l Loc) string {
+	ex.kinds[l.Key] = l.Leaf.Kind
+	ex.leafTyp[l.Key] = l.Leaf.Typ
 	a := ex.get(st, l.Key, l.Sort)
 	for _, i := range l.Idx {
 		a = mkSelect(a, i)
@@ -170,6 +217,8 @@ func (ex *Exec) readLoc(st *State, l Loc) string {
 }
 
 func (ex *Exec) writeLoc(st *State, l Loc, v string) {
+	ex.kinds[l.Key] = l.Leaf.Kind
+	ex.leafTyp[l.Key] = l.Leaf.Typ
 	switch len(l.Idx) {
 	case 0:
 		ex.get(st, l.Key, l.Sort)
@@ -242,6 +291,8 @@ func (ex *Exec) mapValRows(st *State, mt *types.Map, m string) []string {
 	mk := mapHeap(mt)
 	out := make([]string, len(mk.vals))
 	for i, l := range mk.vals {
+		ex.kinds[l.Key] = l.Leaf.Kind
+		ex.leafTyp[l.Key] = l.Leaf.Typ
 		out[i] = mkSelect(ex.get(st, l.Key, l.Sort), m)
 	}
 	return out
